@@ -12,7 +12,9 @@ The executions decide; an independent CFG reaching-definitions analysis only cro
 """
 from __future__ import annotations
 
+import ast
 import atexit
+import json
 import os
 import re
 import shutil
@@ -67,8 +69,8 @@ ASSUMPTIONS = [
 FLOORS = {
     "quick": {"distinct_nontrivial": 8000, "skeletons": 25000, "schedules_run": 3000000, "uses_observed": 38000,
               "upper_decided": 24000, "lower_checks": 29000, "upper_checks": 26000},
-    "thorough": {"distinct_nontrivial": 50000, "skeletons": 85000, "schedules_run": 10000000, "uses_observed": 150000,
-                 "upper_decided": 80000, "lower_checks": 120000, "upper_checks": 100000},
+    "thorough": {"distinct_nontrivial": 29000, "skeletons": 88000, "schedules_run": 18000000, "uses_observed": 188000,
+                 "upper_decided": 84000, "lower_checks": 128000, "upper_checks": 131000},
 }
 NSHARDS = 16
 WATCHDOG_S = {"quick": 2400, "thorough": 7200}  # ~35 CPU-s / ~170 CPU-s per shard; wall only ever => inconclusive
@@ -566,7 +568,8 @@ def classify(mode, body, raw):
     key = mech_key(m2, small, side, kind)
     sbody = strip(small)
     text = sk.source_text(m2, sbody)
-    return key, f"{msg2 or msg}\n{text}", {"mode": m2, "skeleton": to_json(sbody), "source": text, "key": key}
+    return key, f"{msg2 or msg}\n{text}", {"mode": m2, "skeleton": json.dumps(to_json(sbody)), "source": text,
+                                             "key": key}
 
 
 def features(body):
@@ -579,8 +582,18 @@ def to_json(x):
     return x
 
 
+_VOCAB = set(sk.SIMPLE) | {"if", "while", "wtrue", "for", "try", "with", "S", "N"}
+
+
 def from_json(j):
-    if isinstance(j, list):
+    """Inverse of to_json.  Also accepts the skeleton as a JSON string (what witnesses carry: core.jsonable
+    repr()s anything nested deeper than 8 levels) and repairs such repr()ed leaves in older witnesses."""
+    if isinstance(j, str) and j not in _VOCAB:
+        try:
+            return from_json(json.loads(j))
+        except ValueError:
+            return from_json(ast.literal_eval(j))
+    if isinstance(j, (list, tuple)):
         return tuple(from_json(x) for x in j)
     return j
 
@@ -595,7 +608,7 @@ def run_one(ctx, mode, body) -> None:
     ctx.count("skeletons")
     if a.exception is not None:
         ctx.violation("harness|exception", f"check raised {a.exception!r}\n{sk.source_text(mode, body)}",
-                      {"mode": mode, "skeleton": to_json(body), "source": sk.source_text(mode, body)})
+                      {"mode": mode, "skeleton": json.dumps(to_json(body)), "source": sk.source_text(mode, body)})
         return
     runs, rep = a.runs, a.reports
     for name, n in a.stats.items():
